@@ -6,7 +6,7 @@
    Model: model/Limiter.v (tokens scaled by the rate's denominator, so the
    bound reads  passed * den <= capacity * den + num * whole_seconds).
    This file contains only theorem statements closed by [exact]. *)
-From HW Require Import lib.Base model.Limiter proofs.LimiterProofs.
+From HW Require Import lib.Base model.Limiter proofs.LimiterProofs proofs.LimiterIsolation.
 From Coq Require Import QArith.
 Local Open Scope Z_scope.
 
@@ -115,6 +115,24 @@ Theorem C17_passes_iff_token_available :
   (snd (limit l r) = Limited <-> b_tokens b1 < Zpos (b_den b1)).
 Proof. exact passes_iff_token_available. Qed.
 
+(* Hosts are isolated: in any timeline (any interleaving, clock readings, token
+   settings, bypass list, starting state) the answers given to host [h] and the
+   bucket kept for [h] are exactly those of the timeline with every other
+   host's request deleted — no peer can drain, refill or reset another peer's
+   allowance.  [outs_for h rs os] = the outcomes of the requests of [h]. *)
+Theorem C17_hosts_are_isolated :
+  forall (h : host) (rs : list req) (l : limiter),
+  outs_for h rs (snd (run_limiter l rs)) = snd (run_limiter l (filter (on_host h) rs)) /\
+  hb h (fst (run_limiter l rs)) = hb h (fst (run_limiter l (filter (on_host h) rs))).
+Proof. exact host_isolation. Qed.
+
+Theorem C17_other_hosts_traffic_is_irrelevant :
+  forall (h : host) (rs rs' : list req) (l : limiter),
+  filter (on_host h) rs = filter (on_host h) rs' ->
+  outs_for h rs (snd (run_limiter l rs)) = outs_for h rs' (snd (run_limiter l rs')) /\
+  hb h (fst (run_limiter l rs)) = hb h (fst (run_limiter l rs')).
+Proof. exact host_isolation_two_timelines. Qed.
+
 (* ---- non-vacuity ---- *)
 
 Definition ex_host := HDns 0.
@@ -144,4 +162,13 @@ Proof. vm_compute. split; [reflexivity | intros H; apply H; reflexivity]. Qed.
 (* a clock regression panics, and the limiter is as before *)
 Example C17_example_clock_panic :
   snd (run_limiter (limiter_new []) [ex_req 5000; ex_req 4999; ex_req 5000]) = [Passed; ClockPanic; Passed].
+Proof. vm_compute. reflexivity. Qed.
+
+(* isolation, concretely: a flood from another host between the calls of
+   ex_host changes none of ex_host's answers *)
+Example C17_example_isolation :
+  let other ms := {| r_host := HDns 1; r_nid := None; r_tok := ex_tok; r_now := ms |} in
+  let mixed := flat_map (fun ms => [other ms; ex_req ms; other ms; other ms]) [0; 1000; 2000; 3000; 4000; 5000; 6000]%N in
+  outs_for ex_host mixed (snd (run_limiter (limiter_new []) mixed))
+    = [Passed; Passed; Passed; Limited; Limited; Passed; Limited].
 Proof. vm_compute. reflexivity. Qed.
